@@ -509,4 +509,334 @@ theorem sim6 (tl : Bool) : Sim (proto6 tl) core Conn6.cfg where
   call := fun now draws e c r y hr h hh1 => call6 now draws e c r y hr h hh1
   recv := fun now draws e peer dg alt r hdg hr h h2 => recv6 now draws e peer dg alt r hdg hr h h2
 
+/-! ## the handshake clause -/
+
+/-- online or disconnected: the connection never reports `Ready` (again) -/
+def late (c : Conn) : Bool :=
+  match c.state with
+  | .online _ _ => true
+  | .disconnected => true
+  | _ => false
+
+theorem tickAction_hs {env : Env} {c c' : Conn} {out : Out} (ht : tickAction env c = .ok (c', out)) :
+    out.events = [] ∧ late c' = late c := by
+  obtain ⟨st, snd⟩ := c
+  cases st <;> simp only [tickAction] at ht
+  case unconnected => injection ht with ht; injection ht with h1 h2; subst h1 h2; exact ⟨rfl, rfl⟩
+  case disconnected => injection ht with ht; injection ht with h1 h2; subst h1 h2; exact ⟨rfl, rfl⟩
+  case connecting =>
+    split at ht
+    · cases ht
+    · injection ht with ht; injection ht with h1 h2; subst h1 h2; exact ⟨rfl, rfl⟩
+  case pending t =>
+    split at ht
+    · cases ht
+    · injection ht with ht; injection ht with h1 h2; subst h1 h2; exact ⟨rfl, rfl⟩
+  case online t o =>
+    split at ht
+    · split at ht
+      · cases ht
+      · injection ht with ht; injection ht with h1 h2; subst h1 h2; exact ⟨rfl, rfl⟩
+    · split at ht
+      · cases ht
+      · injection ht with ht; injection ht with h1 h2; subst h1 h2; exact ⟨rfl, rfl⟩
+
+theorem hs_call6 (now : Nat) (draws : List Nat) (c : Conn) (cl : Call) (r : Ret Conn Packet)
+    (hr : P6.call now draws c cl = .ok r) : readyCount r.events = 0 ∧ (late c = true → late r.conn = true) := by
+  cases cl with
+  | connect =>
+    simp only [P6.call] at hr
+    split at hr
+    · cases hr
+    · rename_i c1 out hcon
+      injection hr with hr; subst hr
+      unfold connect at hcon
+      cases hst : c.state with
+      | unconnected =>
+        simp only [hst] at hcon
+        obtain ⟨a, b⟩ := tickAction_hs hcon
+        simp only [a, readyCount, true_and]
+        intro hl; simp [late, hst] at hl
+      | _ => simp [hst] at hcon
+  | send d v =>
+    simp only [P6.call] at hr
+    split at hr
+    · cases hr
+    · rename_i c1 res out hsend
+      injection hr with hr; subst hr
+      unfold Conn6.send at hsend
+      cases hst : c.state with
+      | online t o =>
+        simp only [hst] at hsend
+        split at hsend
+        · cases hsend
+        · split at hsend
+          · cases hsend
+          · injection hsend with hsend; injection hsend with e1 e2; injection e2 with e2 e3
+            subst e1 e2 e3
+            exact ⟨rfl, fun _ => rfl⟩
+      | _ => simp [hst] at hsend
+  | sendConnless d =>
+    simp only [P6.call] at hr
+    split at hr
+    · cases hr
+    · rename_i c1 res out hsend
+      injection hr with hr; subst hr
+      unfold Conn6.sendConnless at hsend
+      cases hst : c.state with
+      | online t o =>
+        simp only [hst] at hsend
+        split at hsend
+        · injection hsend with hsend; injection hsend with e1 e2; injection e2 with e2 e3
+          subst e1 e2 e3
+          exact ⟨rfl, fun _ => rfl⟩
+        · split at hsend
+          · cases hsend
+          · injection hsend with hsend; injection hsend with e1 e2; injection e2 with e2 e3
+            subst e1 e2 e3
+            exact ⟨rfl, fun _ => rfl⟩
+      | _ => simp [hst] at hsend
+  | flush =>
+    simp only [P6.call] at hr
+    split at hr
+    · cases hr
+    · rename_i c1 out hfl
+      injection hr with hr; subst hr
+      unfold Conn6.flush at hfl
+      cases hst : c.state with
+      | online t o =>
+        simp only [hst] at hfl
+        split at hfl
+        · cases hfl
+        · injection hfl with hfl; injection hfl with e1 e2; subst e1 e2
+          exact ⟨rfl, fun _ => rfl⟩
+      | _ => simp [hst] at hfl
+  | tick =>
+    simp only [P6.call] at hr
+    split at hr
+    · cases hr
+    · rename_i c1 out htick
+      injection hr with hr; subst hr
+      unfold Conn6.tick at htick
+      have hidle : ∀ {snd : Timeout}, tickAction ⟨now, draws⟩ ⟨c.state, snd⟩ = .ok (c1, out) →
+          readyCount out.events = 0 ∧ (late c = true → late c1 = true) := by
+        intro snd ht
+        obtain ⟨a, b⟩ := tickAction_hs ht
+        rw [a, b]
+        exact ⟨rfl, fun hl => hl⟩
+      cases hst : c.state with
+      | online t o =>
+        simp only [hst] at htick
+        split at htick
+        · unfold resendConn at htick
+          split at htick
+          · cases htick
+          · split at htick
+            · cases htick
+            · injection htick with htick; injection htick with e1 e2; subst e1 e2
+              exact ⟨rfl, fun _ => rfl⟩
+        · split at htick
+          · rw [← hst] at htick; exact hidle htick
+          · injection htick with htick; injection htick with e1 e2; subst e1 e2
+            exact ⟨rfl, fun hl => hl⟩
+      | _ =>
+        simp only [hst, Bool.false_eq_true, if_false] at htick
+        split at htick
+        · rw [← hst] at htick; exact hidle htick
+        · injection htick with htick; injection htick with e1 e2; subst e1 e2
+          exact ⟨rfl, fun hl => hl⟩
+  | disconnect reason =>
+    simp only [P6.call] at hr
+    split at hr
+    · cases hr
+    · rename_i c1 out hdis
+      injection hr with hr; subst hr
+      unfold Conn6.disconnect at hdis
+      split at hdis
+      · cases hdis
+      · split at hdis
+        · cases hdis
+        · split at hdis
+          · cases hdis
+          · injection hdis with hdis; injection hdis with e1 e2; subst e1 e2
+            exact ⟨rfl, fun _ => rfl⟩
+
+theorem wireRead_accept {p q : Packet} {alt : Alt} {hint : Option Bool} (h : wireRead tl p alt hint = some q)
+    (hq : isAccept q = true) : isAccept p = true := by
+  unfold wireRead at h
+  simp only at h
+  have hs : isAccept (if tl = true then strip p else p) = isAccept p := by
+    split
+    · cases p with
+      | control a t c => cases c <;> rfl
+      | _ => rfl
+    · rfl
+  rw [← hs]
+  generalize (if tl = true then strip p else p) = p' at h
+  cases p' with
+  | connless d => simp only at h; injection h with h; rw [h]; exact hq
+  | chunks ack tk rr n cs =>
+    simp only at h
+    split at h
+    · injection h with h; rw [h]; exact hq
+    · cases h
+  | control ack tk ctl =>
+    cases ctl with
+    | close r =>
+      simp only at h
+      split at h
+      · injection h with h; rw [h]; exact hq
+      · cases alt with
+        | exact => simp only at h; injection h with h; rw [h]; exact hq
+        | error => cases h
+        | close tok' r' => simp only at h; injection h with h; rw [← h] at hq; simp [isAccept] at hq
+    | keepAlive => simp only at h; split at h; (injection h with h; rw [h]; exact hq); cases h
+    | connect => simp only at h; split at h; (injection h with h; rw [h]; exact hq); cases h
+    | connectAccept => rfl
+    | accept => simp only at h; split at h; (injection h with h; rw [h]; exact hq); cases h
+
+/-- `feed` after the token check: `Ready` is reported only for the peer's `ConnectAccept`, by a
+connection that is `Connecting` and goes online -/
+theorem feedBody_hs {env : Env} {c c1 : Conn} {token : Option Nat} {q : Packet} {out : Out}
+    (hf : feedBody env c token q = .ok (c1, out)) :
+    (late c = true → late c1 = true ∧ readyCount out.events = 0) ∧
+    (readyCount out.events = 0 ∨ (readyCount out.events = 1 ∧ late c1 = true ∧ isAccept q = true)) := by
+  have hnoop : ∀ (evs : List Event), readyCount evs = 0 →
+      feedBody env c token q = .ok (c, { events := evs }) →
+      (late c = true → late c1 = true ∧ readyCount out.events = 0) ∧
+      (readyCount out.events = 0 ∨ (readyCount out.events = 1 ∧ late c1 = true ∧ isAccept q = true)) := by
+    intro evs hevs hq
+    rw [hq] at hf
+    injection hf with hf; injection hf with e1 e2; subst e1 e2
+    exact ⟨fun hl => ⟨hl, hevs⟩, Or.inl hevs⟩
+  have htick : ∀ {c0 : Conn}, late c = false → tickAction env c0 = .ok (c1, out) →
+      (late c = true → late c1 = true ∧ readyCount out.events = 0) ∧
+      (readyCount out.events = 0 ∨ (readyCount out.events = 1 ∧ late c1 = true ∧ isAccept q = true)) := by
+    intro c0 hl ht
+    obtain ⟨a, _⟩ := tickAction_hs ht
+    rw [a]
+    exact ⟨fun hl' => (by rw [hl] at hl'; cases hl'), Or.inl rfl⟩
+  cases q with
+  | connless d => exact hnoop [.connless d] rfl (by simp [feedBody])
+  | chunks ack tk rr n cs =>
+    have hrecv : ∀ (t : Option Nat) (o : Online),
+        (match o.receive Conn6.cfg env.now c.send rr cs with
+          | .error e => .error e
+          | .ok (o1, send1, fl, evs) =>
+            match emit (fl.map (ofFlushed t)) with
+            | .error e => .error e
+            | .ok ps => .ok (⟨.online t o1, send1⟩, { sent := ps, events := evs })) = Except.ok (c1, out) →
+        (late c = true → late c1 = true ∧ readyCount out.events = 0) ∧
+        (readyCount out.events = 0 ∨ (readyCount out.events = 1 ∧ late c1 = true ∧
+          isAccept (Packet.chunks ack tk rr n cs) = true)) := by
+      intro t o hk
+      split at hk
+      · cases hk
+      · rename_i o1 send1 fl evs hrc
+        split at hk
+        · cases hk
+        · injection hk with hk; injection hk with e1 e2; subst e1 e2
+          have := readyCount_receive hrc
+          exact ⟨fun _ => ⟨rfl, this⟩, Or.inl this⟩
+    cases hst : c.state with
+    | online t o => simp only [feedBody, hst] at hf; exact hrecv t o hf
+    | pending t => simp only [feedBody, hst] at hf; exact hrecv t .new hf
+    | unconnected => exact hnoop [] rfl (by simp [feedBody, hst])
+    | connecting => exact hnoop [] rfl (by simp [feedBody, hst])
+    | disconnected => exact hnoop [] rfl (by simp [feedBody, hst])
+  | control ack tk ctl =>
+    cases ctl with
+    | keepAlive => exact hnoop [] rfl (by simp [feedBody])
+    | accept => exact hnoop [] rfl (by simp [feedBody])
+    | close reason =>
+      simp only [feedBody] at hf
+      injection hf with hf; injection hf with e1 e2; subst e1 e2
+      exact ⟨fun _ => ⟨rfl, rfl⟩, Or.inl rfl⟩
+    | connect =>
+      cases hst : c.state with
+      | unconnected =>
+        simp only [feedBody, hst] at hf
+        have hl : late c = false := by simp [late, hst]
+        cases token with
+        | none => simp only at hf; exact htick hl hf
+        | some t0 =>
+          simp only at hf
+          split at hf
+          · split at hf
+            · cases hf
+            · exact htick hl hf
+          · injection hf with hf; injection hf with e1 e2; subst e1 e2
+            exact ⟨fun hl => ⟨hl, rfl⟩, Or.inl rfl⟩
+      | online t o => exact hnoop [] rfl (by simp [feedBody, hst])
+      | pending t => exact hnoop [] rfl (by simp [feedBody, hst])
+      | connecting => exact hnoop [] rfl (by simp [feedBody, hst])
+      | disconnected => exact hnoop [] rfl (by simp [feedBody, hst])
+    | connectAccept =>
+      cases hst : c.state with
+      | connecting =>
+        simp only [feedBody, hst] at hf
+        split at hf
+        · cases hf
+        · injection hf with hf; injection hf with e1 e2; subst e1 e2
+          exact ⟨fun hl => by simp [late, hst] at hl, Or.inr ⟨rfl, rfl, rfl⟩⟩
+      | online t o => exact hnoop [] rfl (by simp [feedBody, hst])
+      | pending t => exact hnoop [] rfl (by simp [feedBody, hst])
+      | unconnected => exact hnoop [] rfl (by simp [feedBody, hst])
+      | disconnected => exact hnoop [] rfl (by simp [feedBody, hst])
+
+theorem hs_recv6 (now : Nat) (draws : List Nat) (c : Conn) (p : Packet) (alt : Alt) (r : Ret Conn Packet)
+    (hr : P6.recv tl now draws c p alt = .ok r) :
+    (late c = true → late r.conn = true ∧ readyCount r.events = 0) ∧
+    (readyCount r.events = 0 ∨ (readyCount r.events = 1 ∧ late r.conn = true ∧ isAccept p = true)) := by
+  unfold P6.recv at hr
+  split at hr
+  · cases hr
+  · rename_i c1 out hf
+    injection hr with hr; subst hr
+    simp only
+    have hquiet : ∀ (o : Out), o.events = [] → (Except.ok (c, o) : Res) = Except.ok (c1, out) →
+        (late c = true → late c1 = true ∧ readyCount out.events = 0) ∧
+        (readyCount out.events = 0 ∨ (readyCount out.events = 1 ∧ late c1 = true ∧ isAccept p = true)) := by
+      intro o ho hk
+      injection hk with hk; injection hk with e1 e2; subst e1 e2
+      rw [ho]
+      exact ⟨fun hl => ⟨hl, rfl⟩, Or.inl rfl⟩
+    unfold feed at hf
+    cases hq : wireRead tl p alt c.hint with
+    | none => simp only [hq] at hf; exact hquiet _ rfl hf
+    | some q =>
+      simp only [hq] at hf
+      have fin : ∀ {c0 : Conn} {token : Option Nat}, late c0 = late c →
+          feedBody ⟨now, draws⟩ c0 token q = .ok (c1, out) →
+          (late c = true → late c1 = true ∧ readyCount out.events = 0) ∧
+          (readyCount out.events = 0 ∨ (readyCount out.events = 1 ∧ late c1 = true ∧ isAccept p = true)) := by
+        intro c0 token hl hb
+        obtain ⟨a, b⟩ := feedBody_hs hb
+        rw [hl] at a
+        refine ⟨a, ?_⟩
+        rcases b with b | ⟨b1, b2, b3⟩
+        · exact Or.inl b
+        · exact Or.inr ⟨b1, b2, wireRead_accept hq b3⟩
+      cases hta : q.tokenAck? with
+      | none => simp only [hta] at hf; exact fin rfl hf
+      | some ta =>
+        obtain ⟨token, ack⟩ := ta
+        simp only [hta] at hf
+        split at hf
+        · exact hquiet _ rfl hf
+        · cases hst : c.state with
+          | online t o =>
+            simp only [hst] at hf
+            split at hf
+            · cases hf
+            · exact fin (by simp [late, hst]) hf
+          | unconnected => simp only [hst] at hf; exact fin rfl hf
+          | connecting => simp only [hst] at hf; exact fin rfl hf
+          | pending t => simp only [hst] at hf; exact fin rfl hf
+          | disconnected => simp only [hst] at hf; exact fin rfl hf
+
+theorem hs6 (tl : Bool) : Hs (proto6 tl) late where
+  call := fun now draws c cl r hr => hs_call6 now draws c cl r hr
+  recv := fun now draws c p alt r hr => hs_recv6 now draws c p alt r hr
+
 end Tw.NetSim.P6
